@@ -410,7 +410,7 @@ class Lexer {
       break;
     case '\'':
       readChar();
-      value = readCharConst();
+      value = static_cast<unsigned char>(readCharConst());
       token = Token::NUMBER;
       if (lastChar != '\'') {
         throw TokenError(getLocation(), "expected ' after char constant");
@@ -2554,7 +2554,7 @@ public:
     }
     for (size_t strByteIndex = 0; strByteIndex < value.size(); strByteIndex++) {
       auto bytePos = (strByteIndex + 1) % 4;
-      packedWord |= value[strByteIndex] << (bytePos * 8);
+      packedWord |= static_cast<uint32_t>(static_cast<unsigned char>(value[strByteIndex])) << (bytePos * 8);
       if (bytePos == 3 || strByteIndex == (value.size() - 1)) {
         genData(packedWord);
         packedWord = 0;
